@@ -1,5 +1,5 @@
 (** * C08 -- multi-threaded execution agrees with single-threaded under every schedule *)
-From QV Require Import Par Reg ScalarR C08T.
+From QV Require Import Par Reg ScalarR C08T Reg ScalarR RegP C05T C08T2.
 
 Theorem C08_sweep_deterministic : C08_sweep_deterministic_stmt.
 Proof. exact C08_sweep_deterministic_proof. Qed.
@@ -16,3 +16,7 @@ Print Assumptions C08_reduce.
 Theorem C08_num_threads : C08_num_threads_stmt.
 Proof. exact C08_num_threads_proof. Qed.
 Print Assumptions C08_num_threads.
+
+Theorem C08_threads_irrelevant : C08_threads_irrelevant_stmt.
+Proof. exact C08_threads_irrelevant_proof. Qed.
+Print Assumptions C08_threads_irrelevant.
